@@ -18,6 +18,9 @@ ALLOWED_AXIOMS = {'propext', 'Classical.choice', 'Quot.sound'}
 FORBIDDEN = re.compile(r'\bsorry\b|\badmit\b|^axiom\s|native_decide|bv_decide|implemented_by|\bunsafe\s|maxHeartbeats\s+0')
 
 
+HIST_STATS = {'histories_checked_against_history_model': 0, 'history_model_agrees': 0, 'abstract_reader_accepts': 0}
+
+
 class BuildError(Exception):
     pass
 
@@ -207,9 +210,20 @@ def run_model(cases, timeout=3600):
         if l.startswith('M '):
             ms.append(l[2:])
             ss.append('')
-        elif l.startswith('S ') and ss:
-            ss[-1] = l[2:]
-        elif l == 'S' and ss:
+        elif (l.startswith('S ') or l == 'S') and ss:
+            body = l[2:]
+            # verdicts of the history model (Model/History*.lean) ride on the S line
+            if ' H=' in body:
+                body, hv = body.split(' H=', 1)
+                HIST_STATS['histories_checked_against_history_model'] += 1
+                HIST_STATS['history_model_agrees'] += hv.startswith('1')
+                HIST_STATS['abstract_reader_accepts'] += 'A=1' in hv
+                if hv.startswith('0'):
+                    ms[-1] += ' <history-model-disagrees>'
+                if 'A=0' in hv:
+                    ms[-1] += ' <abstract-reader-rejects-model>'
+            ss[-1] = body
+        elif False:
             ss[-1] = ''
     if len(ms) != len(cases):
         raise BuildError('model driver answered %d of %d cases' % (len(ms), len(cases)))
